@@ -80,10 +80,13 @@ def _loop_terms(fn, u, roles=None):
             for j, x in enumerate(shape.elts if isinstance(shape, (ast.Tuple, ast.List)) else []):
                 if isinstance(x, ast.Name):
                     bound[x.id] = ('lvar', depth, j)
+        while it_t[0] == 'call' and it_t[1] in (('name', 'list'), ('name', 'tuple')) and len(it_t[2]) == 1 and not it_t[3]:
+            it_t = it_t[2][0]      # a snapshot of the iterable visits the same elements in the same order
         chain.append(it_t)
     T = lambda e: Canon(fn.module, Scope(None), inline=False, bound=dict(bound)).t(e) if e is not None else None
     key, val, guard, args, tgt = T(u.get('key')), T(u.get('value')), T(u.get('guard')), [T(a) for a in u.get('args', [])], T(u['target'])
     # a single loop over a comprehension / map / filter: for t in (f(x) for x in S if g(x)): eff(t)   is   for x in S: if g(x): eff(f(x))
+    flattened = False
     while len(chain) == 1 and chain[0][0] in ('genexp', 'listcomp') and len(chain[0][2]) == 1:
         elt, (it, ifs) = chain[0][1], chain[0][2][0]
         L = ('lvar', 0, 0)
@@ -103,6 +106,23 @@ def _loop_terms(fn, u, roles=None):
             gl = rep(g, cv, L)
             guard = gl if guard is None else ('and', tuple(sorted([guard, gl], key=repr)))
         chain = [it]
+        flattened = True
+    if flattened:
+        # the element of the flattened loop is only read by position: x[0], x[1] are the positions of an unpacked target
+        L = ('lvar', 0, 0)
+        HOLE = ('lvar?',)
+
+        def pos(t):
+            if isinstance(t, tuple) and len(t) == 3 and t[0] == 'sub' and t[1] == L and isinstance(t[2], tuple) and t[2][0] == 'num' and isinstance(t[2][1], int):
+                return ('lvar', 0, t[2][1])
+            if t == L:
+                return HOLE
+            if isinstance(t, tuple):
+                return tuple(pos(x) for x in t)
+            return t
+        cand = [pos(x) for x in (key, val, guard, tuple(args), tgt)]
+        if not any(HOLE in list(walk_term(c)) for c in cand if c is not None):
+            key, val, guard, args, tgt = cand[0], cand[1], cand[2], list(cand[3]), cand[4]
     return chain, key, val, guard, args, tgt
 
 
@@ -185,12 +205,19 @@ def rare_values(repo, chk):
                     if t2[0] in ('listcomp', 'setcomp', 'genexp') and len(t2[2]) == 1 and t2[2][0][0] == E('GLOBAL_RARE_VALUE_STORAGE.items()') and t2[1] == ('sub', ('cvar', 0, 0), ('num', 0)) and len(t2[2][0][1]) == 1:
                         g2 = t2[2][0][1][0]
                         collected[k2] = _retarget(g2)
+        def coll_guard(ch):
+            """(True, guard) when `ch` is a collection of store keys: a local list filled from store.items(), or the comprehension itself"""
+            if ch[0] == 'name' and ch[1] in collected:
+                return True, collected[ch[1]]
+            if ch[0] in ('listcomp', 'setcomp', 'genexp') and len(ch[2]) == 1 and ch[2][0][0] == E('GLOBAL_RARE_VALUE_STORAGE.items()') and ch[1] == ('sub', ('cvar', 0, 0), ('num', 0)) and len(ch[2][0][1]) <= 1:
+                return True, (_retarget(ch[2][0][1][0]) if ch[2][0][1] else None)
+            return False, None
         for u, (chain, key, val, guard, a_, tgt) in adds:
             site = fn.site(u['node'])
             direct = len(chain) == 1 and chain[0] == E('GLOBAL_RARE_VALUE_STORAGE.items()') and a_ and a_[0] == K
-            via_list = len(chain) == 1 and chain[0][0] == 'name' and chain[0][1] in collected and a_ and a_[0] == K
+            via_list = len(chain) == 1 and coll_guard(chain[0])[0] and a_ and a_[0] == K
             chk.expect(direct or via_list, 'C13.1e', 'R5', site, ast.unparse(u['node']), 'retired keys are the keys of the store itself (same shape)', 'keys added to the retirement set must be the keys of the rare-value store (iteration over storage.items())')
-            g = guard if direct else (collected.get(chain[0][1]) if via_list else None)
+            g = guard if direct else (coll_guard(chain[0])[1] if via_list else None)
             if direct or via_list:
                 if g == ('cmp', '<', bound_t, V):
                     chk.ok('C13.2a', 'R14', site, show(g)[:100], 'a pair is retired exactly when its running count exceeds the bound')
@@ -206,10 +233,14 @@ def rare_values(repo, chk):
         ok_del = False
         for u, (chain, key, val, guard, a_, tgt) in dels:
             k_t = key if u['op'] == 'del' else (a_[0] if a_ else None)
-            if len(chain) == 1 and chain[0][0] == 'name' and chain[0][1] in collected and k_t == K and guard is None:
+            if len(chain) == 1 and chain[0] == E('GLOBAL_RARE_VALUE_STORAGE.items()') and k_t == K:
+                # the removal ranges over the store's own items under a guard: the same guard as the retirement
+                add_guards = [t[3] if (len(t[0]) == 1 and t[0][0] == E('GLOBAL_RARE_VALUE_STORAGE.items()')) else coll_guard(t[0][0])[1] for _, t in adds if t[0]]
+                ok_del = guard in add_guards or not adds
+            elif len(chain) == 1 and coll_guard(chain[0])[0] and k_t == K and guard is None:
                 # the list holds exactly the keys that were retired (same guard as the additions to the retirement set)
-                add_guards = [t[3] if (len(t[0]) == 1 and t[0][0] == E('GLOBAL_RARE_VALUE_STORAGE.items()')) else collected.get(t[0][0][1]) for _, t in adds if t[0]]
-                ok_del = collected[chain[0][1]] in add_guards or not adds
+                add_guards = [t[3] if (len(t[0]) == 1 and t[0][0] == E('GLOBAL_RARE_VALUE_STORAGE.items()')) else coll_guard(t[0][0])[1] for _, t in adds if t[0]]
+                ok_del = coll_guard(chain[0])[1] in add_guards or not adds
         if adds and not dels:
             chk.bad('C13.2c', 'R13', fn.site(), 'for key in keys_to_remove: del storage[key]', 'a pair whose count exceeded the threshold is retired but not removed from the rare-value store: frequent values are reported as rare')
         elif adds:
